@@ -26,7 +26,7 @@ func init() {
 		Spec: core.Spec{ID: "C15", Level: "fault_enumeration",
 			Rule:        "case = one sequential history on a real temporary directory with FileSystemDataStore as both stores: acknowledged ingest+flush steps, flushes made to fail by the crash-point handler itself (it removes the .tmp just before the rename, so Close fails and the abort/tombstone path runs), single- and multi-group merges, repeated merges. The tagged verifFS callback fires after every filesystem mutation (reservation create/close, temp create, each write, sync, handle close, rename, directory sync, every remove of Abort/TombstoneFile/Update); at each one the directory is copied (= the process-crash image after that mutation, with the set of rows acknowledged so far) and fed to a shadow durability model (volatile namespace/inodes vs durable namespace and per-inode durable length: fsync(file) makes its bytes durable, fsync(dir) makes the namespace durable). From every crash point: the process-crash image, a torn-write image, and power-loss images (durable namespace plus a prefix or PRNG subset of the pending namespace operations; unsynced tails dropped, truncated or zero-filled). Every image is opened by a fresh FileSystemDataStore + engine: scan succeeds, every yielded file fully readable, match-all query Err == nil, superset of rows acked before the crash point, only ingested rows, none more often than ingested. evaluations = images opened; non-trivial = image taken strictly inside a flush/merge/abort (not at a quiescent point); distinct = distinct (history, crash point, variant); exhaustive over the mutation boundaries of each explored history, power-loss subsets sampled",
 			Assumptions: []string{"conservative POSIX durability model: a file's fsync does not persist its directory entry; directory fsync persists all namespace changes so far", "sequential client: the ack set at a crash point is the ledger state when the callback ran"},
-			Floors:      map[string]int64{"histories": 6, "crash_points": 300, "images_opened": 1000, "images_power_loss": 400}},
+			Floors:      map[string]int64{"histories": 6, "crash_points": 300, "images_opened": 1000, "images_power_loss": 400, "event.update.remove": 8, "merge_commit_windows": 4}},
 		Cases: func(t string) int { return nQueries(t, 16, 300) },
 		Run:   runC15,
 	})
@@ -268,10 +268,24 @@ func c15Child(args []string) int {
 	spec.Compression = core.Pick(r, []string{"none", "snappy"})
 	spec.BufRows = 1000
 	spec.BufBytes = 1 << 20
-	spec.RGRows = core.Pick(r, []int{3, 6, 1000})
+	spec.RGRows = core.Pick(r, []int{6, 12, 1000, 1000})
 	spec.RGBytes = 10 << 20
 	spec.MergeFiles = core.Pick(r, []int{2, 3, 10})
-	spec.MaxFileSize = core.Pick(r, []int{4000, 10 << 30})
+	spec.MaxFileSize = core.Pick(r, []int{4000, 10 << 30, 10 << 30})
+	// merges must really combine files: few partitions, and in most histories no minmax keys
+	// (blocks only combine within one partition and one minmax key set)
+	switch r.Intn(3) {
+	case 0:
+		spec.Part = gen.PartFunc{Name: "none"}
+	case 1:
+		spec.Part = gen.PartFunc{Name: "bucket:2", Fn: gen.PickPartFuncBucket(2)}
+	default:
+		spec.Part = gen.PartFunc{Name: "bucket:3", Fn: gen.PickPartFuncBucket(3)}
+	}
+	spec.Partition = spec.Part.Name
+	if r.Chance(0.7) {
+		spec.MinMax = nil
+	}
 	spec.IngestBuf = 100
 	hist.Engine = spec
 	// a thin fault wrapper around the filesystem store: it can make one Write of a chosen flush
@@ -326,17 +340,26 @@ func c15Child(args []string) int {
 	rr := r.Split("rows")
 	ns := r.Range(4, 9)
 	for s := 0; s < ns; s++ {
-		switch r.Intn(7) {
+		pickStep := r.Intn(7)
+		if s < 2 {
+			pickStep = 0
+		} else if s == 2 {
+			pickStep = 6
+		}
+		switch pickStep {
 		case 0, 1, 2, 3:
 			nb := r.Range(1, 2)
+			if s < 2 {
+				nb = 1 // the first steps are flushes of one small batch each: something to merge
+			}
 			var bl []*batch
 			var chans []chan error
-			fail := r.Chance(0.2)
+			fail := r.Chance(0.2) && s >= 2
 			curOp = "flush"
 			if fail {
 				curOp = "failflush"
 				failNextClose = true
-			} else if r.Chance(0.2) {
+			} else if r.Chance(0.2) && s >= 2 {
 				curOp = "failwrite"
 				failWriteAt = r.Range(0, 5)
 			}
@@ -554,6 +577,7 @@ func runC15(rc *RunCtx, i int) {
 			mergeWindows = append(mergeWindows, window{k, end})
 		}
 	}
+	rc.Res.Count("merge_commit_windows", int64(len(mergeWindows)))
 	inMergeWindow := func(ev int) bool {
 		for _, mw := range mergeWindows {
 			if ev >= mw.from && ev <= mw.to {
